@@ -27,7 +27,7 @@ type Case struct {
 	RVals              [][]byte // their values (nil entries if no values)
 }
 
-var encNames = []string{"none", "raw", "i8", "i16", "i32", "i64", "u16", "u32", "u64", "int", "s16", "bytes3", "te7", "f64"}
+var encNames = []string{"none", "raw", "i8", "i16", "i32", "i64", "u16", "u32", "u64", "int", "s16", "bytes3", "te7", "f64", "nu32"}
 
 func randFlags(r *rand.Rand) string {
 	if r.Intn(12) == 0 {
@@ -103,6 +103,8 @@ func valueOf(r *rand.Rand, enc string, run int, salt uint64) []byte {
 		return b
 	case "bytes3":
 		return []byte{byte(x >> 56), byte(x >> 48), byte(x >> 40)}
+	case "nu32":
+		return []byte{byte(x >> 56), byte(x >> 48), byte(x >> 40), byte(x >> 32)}
 	case "te7":
 		return []byte{byte(x >> 56), byte(x >> 48), byte(x >> 40), byte(x >> 32), byte(x >> 24), byte(x >> 16), byte(x >> 8)}
 	case "f64":
